@@ -153,9 +153,9 @@ def fuzz_parse(prop, seed):
     env["CARGO_TARGET_DIR"] = os.path.join(TARGET, "fuzz_parse")
     runs = 3000000
     offset = {"C01": 1, "C03": 2, "C09": 3}[prop]
-    cmd = ["cargo", "+nightly", "fuzz", "run", "parse", corp, "--", "-runs=%d" % runs, "-seed=%d" % (seed * 4 + offset), "-max_len=80", "-len_control=0", "-rss_limit_mb=8192", "-artifact_prefix=" + art, "-print_final_stats=1"]
+    cmd = ["cargo", "+nightly", "fuzz", "run", "--fuzz-dir", fdir, "parse", corp, "--", "-runs=%d" % runs, "-seed=%d" % (seed * 4 + offset), "-max_len=80", "-len_control=0", "-rss_limit_mb=8192", "-artifact_prefix=" + art, "-print_final_stats=1"]
     t = time.time()
-    code, outp = run(cmd, cwd=fdir, env=env, capture=True, timeout=5 * 3600)
+    code, outp = run(cmd, cwd=ROOT, env=env, capture=True, timeout=5 * 3600)
     logp = os.path.join(ROOT, "work", "fuzz_parse_%s.log" % prop)
     with open(logp, "w") as f:
         f.write(outp)
